@@ -223,6 +223,11 @@ def run_case(case, tier):
     ta, tb = pdbio.dump(a), pdbio.dump(b)
     tab, tba = pdbio.dump(a + ter + b), pdbio.dump(b + ter + a)
     xo = util.neutral_options(rng, families=("grid", "protonation", "keep", "swap-display"), classes=classes)
+    if case["kind"] != "files" and rng.random() < 0.25:
+        ov = {"common_charge_centre": rng.choice((1, 1, 0)), "shared_determinants": rng.choice((0, 1)),
+              "remove_penalised_group": rng.choice((0, 1))}
+        xo = xo + ["-p", util.write_cfg(ov)]
+        classes.append("parameter-file" + (":common-charge-centre" if ov["common_charge_centre"] else ""))
     ra, rb = obs.run_single(ta, xo, write_pka=False, debug_iterative=True), obs.run_single(tb, xo, write_pka=False, debug_iterative=True)
 
     def sweeps(run):
